@@ -58,26 +58,49 @@ Theorem c15_rq_roundtrip : forall v, wt env dRQ v -> json_ok v = true -> de env 
 Proof. intros v. apply (serde_roundtrip_ref env c15_schema_ok). Qed.
 Print Assumptions c15_rq_roundtrip.
 
-(* ---- documents: what `de` accepts (ANY JSON tree with distinct keys, e.g. one written by a language binding) ---- *)
+(* ---- documents: what `de` accepts (ANY JSON tree, e.g. one written by a language binding; a repeated key is an
+   error for a struct field and last-wins in a map, as in serde) ---- *)
 Theorem c15_de_wt : forall (E : Serde.env) (d : desc) (j : json) (v : value),
-  jnodup j = true -> de E d j = Some v -> wt E d v /\ json_ok v = true.
+  de E d j = Some v -> wt E d v /\ json_ok v = true.
 Proof. exact de_wt. Qed.
 Print Assumptions c15_de_wt.
 
 Theorem c15_reserialise_stable : forall (E : Serde.env) (d : desc) (j : json) (v : value),
-  schema_ok E = true -> desc_ok E d = true -> jnodup j = true -> de E d j = Some v -> de E d (ser E d v) = Some v.
+  schema_ok E = true -> desc_ok E d = true -> de E d j = Some v -> de E d (ser E d v) = Some v.
 Proof. exact reserialise_stable. Qed.
 Print Assumptions c15_reserialise_stable.
 
 Theorem c15_pl_rq_documents_stable : forall j v,
-  jnodup j = true ->
   (de env dPL j = Some v -> de env dPL (ser env dPL v) = Some v) /\
   (de env dRQ j = Some v -> de env dRQ (ser env dRQ v) = Some v).
 Proof.
   assert (desc_ok env dPL = true /\ desc_ok env dRQ = true) as [H1 H2] by (apply andb_true_iff; exact c15_roots_ok).
-  intros j v Hn. split; intro H; eapply reserialise_stable; eauto using c15_schema_ok.
+  intros j v. split; intro H; eapply reserialise_stable; eauto using c15_schema_ok.
 Qed.
 Print Assumptions c15_pl_rq_documents_stable.
+
+(* duplicate keys and integer tokens, as serde treats them *)
+Theorem c15_map_without_repeats_read_as_is : forall (A : Type) (l : list (str * A)), NoDup (keys l) -> dedup_last l = l.
+Proof. exact @dedup_last_id. Qed.
+Print Assumptions c15_map_without_repeats_read_as_is.
+
+Theorem c15_ser_writes_no_duplicate_field : forall (E : Serde.env) (own : list str) (fs : list field) (l : list value),
+  NoDup (map fname fs) ->
+  (forall f, In f fs -> fflatten f = true -> flatten_ok E own f = true) ->
+  NoDup (own_keys own (ser_fields E fs l)).
+Proof. intros E own fs l H1 H2. exact (proj1 (own_keys_nodup E own fs l H1 H2)). Qed.
+Print Assumptions c15_ser_writes_no_duplicate_field.
+
+Example c15_ex_duplicate_field_rejected :
+  de env dPL (JObj [([110;97;109;101]%N, JStr [80]%N); ([110;97;109;101]%N, JStr [81]%N); ([115;116;109;116;115]%N, JArr [])]) = None
+  /\ de env dPL (JObj [([110;97;109;101]%N, JStr [80]%N); ([115;116;109;116;115]%N, JArr []); ([122]%N, JNull); ([122]%N, JNull)])
+     = Some (VStruct [VStr [80]%N; VList []]).
+Proof. split; vm_compute; reflexivity. Qed.
+
+Example c15_ex_integer_read_as_float :
+  de_prim DFloat (JNum (NInt (-3))) = Some (VFloat (FFin [45;51;46;48]%N))
+  /\ de_prim DFloat (JNum (NInt 9007199254740993)) = None.
+Proof. split; vm_compute; reflexivity. Qed.
 
 (* ---- the field attributes, one lemma each (the steps of the generic theorem that are about one attribute) ---- *)
 (* skip_serializing_if (+ default / Option): what was skipped is what absence deserialises to *)
@@ -152,10 +175,10 @@ Section Stages.
   Qed.
 
   (* the same, with the hypotheses in the form the correspondence tests (stream model-de-ser): each stage value is
-     one the model reads from a document with distinct keys; typing and finiteness follow (c15_de_wt) *)
+     one the model reads from a document; typing and finiteness follow (c15_de_wt) *)
   Theorem c15_staged_eq_direct_docs : forall s o,
-    (forall v, parse s = Ok v -> exists j, jnodup j = true /\ de env dPL j = Some v) ->
-    (forall v w, parse s = Ok v -> resolve v = Ok w -> exists j, jnodup j = true /\ de env dRQ j = Some w) ->
+    (forall v, parse s = Ok v -> exists j, de env dPL j = Some v) ->
+    (forall v w, parse s = Ok v -> resolve v = Ok w -> exists j, de env dRQ j = Some w) ->
     observe (staged s o) = observe (compile s o).
   Proof.
     assert (desc_ok env dPL = true /\ desc_ok env dRQ = true) as [H1 H2]
